@@ -61,7 +61,8 @@ def cases(tier):
     steps = [("leapfrog", "euclid", 1, "diag", 1), ("leapfrog", "euclid", 2, "diag", 1), ("leapfrog", "euclid", 1, "diag", 2),
              ("symcomp1", "euclid", 1, "diag", 1), ("leapfrog", "gauss", 1, "diag", 1), ("bcss2", "euclid", 1, "diag", 1)]
     if th:
-        steps += [("leapfrog", "euclid", 2, "dense", 1), ("symcomp2", "euclid", 1, "diag", 1), ("leapfrog", "gauss", 2, "diag", 1),
+        steps += [("leapfrog", "euclid", 2, "dense", 1), ("leapfrog", "gauss", 2, "diag", 1),  # (symcomp2 on the cubic-gradient model: > 900 s; covered by step_uf/symcomp2)
+                  
                   ("leapfrog", "euclid", 2, "diag", 2), ("bcss3", "euclid", 1, "diag", 1)]
     for ik, kind, dim, mkind, n in steps:
         G(f"step/{ik}/{kind}/{dim}/{mkind}/n{n}", "step", {"ikind": ik, "kind": kind, "dim": dim, "mkind": mkind, "n": n})
